@@ -181,6 +181,10 @@ def gen_args(rng, fn, pre, well_typed, pool=None, keypool=None):
                     if rng.random() < 0.25 else _num(rng)], {}
         return [json_arg(rng, pool)], {}
     if fn in ("in_", "not_in"):
+        if rng.random() < 0.06:
+            # a long list of (hashable) candidates - above the sizes at which a membership test gets "optimised"
+            n = rng.choice([17, 33, 40, 70])
+            return [[rng.choice([i, str(i), float(i) + 0.5]) for i in range(n)] + [json_arg(rng, pool, 0) for _ in range(2)]], {}
         if well_typed or rng.random() < 0.7:
             r = rng.random()
             if r < 0.7:
